@@ -36,6 +36,22 @@ def check_comb_cycles(top):
             raise CombLoop(str(e)) from e
 
 
+def sink_only_check(design, sigs):
+    """Structural justification for leaving registers out of the BFS key: every statement of the prepared design that
+    *reads* one of `sigs` assigns only to signals of `sigs` (write-only accumulators: their value can influence nothing
+    but themselves).  Statement granularity is the top-level statement (a Switch counts with everything inside)."""
+    from amaranth.hdl._ast import SignalSet
+    S = SignalSet(sigs)
+    for fragment in design.fragments:
+        for domain, stmts in fragment.statements.items():
+            for stmt in stmts:
+                rhs = stmt._rhs_signals()
+                if any(r in S for r in rhs):
+                    for l in stmt._lhs_signals():
+                        if l not in S:
+                            raise HarnessError(f"register excluded from the state key feeds {l.name}: not a write-only sink")
+
+
 class Driver:
     """Hand-driven pysim instance: snapshot / restore / one-cycle step.
 
@@ -43,7 +59,8 @@ class Driver:
     observed : list of (name, Value)  -- anything readable
     """
 
-    def __init__(self, top, inputs, observed):
+    def __init__(self, top, inputs, observed, ignore_state=()):
+        self.ignore_sigs = list(ignore_state)
         with warnings.catch_warnings():
             warnings.simplefilter("ignore")
             self.sim = Simulator(top)
@@ -75,6 +92,10 @@ class Driver:
         excl = set(id(s) for s in self.in_slots)
         if self.clk_slot is not None:
             excl.add(id(self.clk_slot))
+        if self.ignore_sigs:
+            sink_only_check(self.sim._design, self.ignore_sigs)
+            for s in self.ignore_sigs:
+                excl.add(id(st.slots[st.get_signal(s)]))
         self.reg_slots = []
         self.mem_slots = []
         for sl in st.slots:
